@@ -195,6 +195,174 @@ contract(
 )
 
 
+# ----------------------------------------------------------------------------------- oracle / value / (sub)gradient (leaf function)
+def hit(S, L, idx, x):
+    return same_point(S, t0(S, S.elt(L, idx)), x)
+
+
+def some_hit(S, L, x):
+    i = fresh('i', I)
+    return z3.Exists([i], z3.And(i >= 0, i < S.len(L), hit(S, L, i, x)))
+
+
+def at_first_hit(S, L, x, body):
+    """body(t) holds for the FIRST stored sample t whose point denotes the same combination as x (vacuous without such a sample)"""
+    i, j = fresh('i', I), fresh('j', I)
+    return z3.ForAll([i], z3.Implies(z3.And(i >= 0, i < S.len(L), hit(S, L, i, x), z3.ForAll([j], z3.Implies(z3.And(j >= 0, j < i), z3.Not(hit(S, L, j, x))))),
+                                     body(S.elt(L, i))))
+
+
+def recorded_sample(S0, S, f, x, g, v):
+    Lp = S0.fld('Function', 'list_of_points', f)
+    t = S.elt(Lp, S0.len(Lp))
+    return z3.And(list_appended(S0, S, Lp, t), t >= S0.alloc, t < S.alloc, t0(S, t) == x, t1(S, t) == g, t2(S, t) == v)
+
+
+def oracle_ens(S0, S, a, res):
+    f, x = a['self'].t, a['point'].t
+    g, v = res.items[0].t, res.items[1].t
+    Lp, Ls = S0.fld('Function', 'list_of_points', f), S0.fld('Function', 'list_of_stationary_points', f)
+    reuse = S0.fld('Function', 'reuse_gradient', f)
+    was = some_hit(S0, Lp, x)
+    return [
+        ('one_value', at_first_hit(S0, Lp, x, lambda t: v == t2(S0, t)), 'property'),
+        ('differentiable.same_gradient', z3.Implies(reuse, at_first_hit(S0, Lp, x, lambda t: g == t1(S0, t))), 'property'),
+        ('differentiable.nothing_recorded', z3.Implies(z3.And(reuse, was), z3.And(list_same(S0, S, Lp), list_same(S0, S, Ls))), 'property'),
+        ('otherwise.new_subgradient', z3.Implies(z3.Not(z3.And(reuse, was)), fresh_leaf(S0, S, 'Point', g)), 'property'),
+        ('otherwise.recorded', z3.Implies(z3.Not(z3.And(reuse, was)), recorded_sample(S0, S, f, x, g, v)), 'property'),
+        ('first_evaluation.new_value', z3.Implies(z3.Not(was), fresh_leaf(S0, S, 'Expression', v)), 'property'),
+        ('queried_point_keeps_its_coefficients', forall_k(lambda k: coeff(S, 'Point', x, k) == coeff(S0, 'Point', x, k)), 'property'),
+        ('same_lists', z3.And(S.fld('Function', 'list_of_points', f) == Lp, S.fld('Function', 'list_of_stationary_points', f) == Ls,
+                              S.fld('Function', 'reuse_gradient', f) == reuse, S.fld('Function', '_is_leaf', f)), 'aux'),
+    ]
+
+
+def oracle_mods(S, a):
+    f, x = a['self'].t, a['point'].t
+    Lp, Ls = S.fld('Function', 'list_of_points', f), S.fld('Function', 'list_of_stationary_points', f)
+    regs = [S.g('Point.list_of_leaf_points'), S.g('Expression.list_of_leaf_expressions')]
+    pred = lambda r: z3.Or(r == Lp, r == Ls, *[r == y for y in regs])
+    i = fresh('i', I)
+    # the dictionaries of self (pruned), of the queried point and of the stored value handed out again are rebound to pruned copies (same coefficients)
+    stored_value = lambda r: z3.Exists([i], z3.And(i >= 0, i < S.len(Lp), r == t2(S, S.elt(Lp, i))))
+    return {'len': pred, 'eltI': pred, 'f:decomposition_dict': lambda r: z3.Or(r == f, r == x, stored_value(r))}
+
+
+def oracle_req(S, a):
+    f = a['self'].t
+    return [('leaf_function', S.fld('Function', '_is_leaf', f)), ('private_lists', private_lists(S, f)), ('samples', samples_wf(S, f)),
+            ('own_weight_one', z3.And(S.dd('Function', f) >= 0, S.dd('Function', f) < S.alloc, S.cls(S.dd('Function', f)) == tag('dict'),
+                                      forall_k(lambda k: S.has(S.dd('Function', f), k) == (k == Obj(f))), S.get(S.dd('Function', f), Obj(f)) == 1))]
+
+
+# the three-way classification of the terms of self at a point; for a LEAF function the only term is the function itself
+FW = THeapTuple(FT, TReal)
+
+
+def sep_ens(S0, S, a, res):
+    f, x = a['self'].t, a['point'].t
+    Lp = S0.fld('Function', 'list_of_points', f)
+    reuse = S0.fld('Function', 'reuse_gradient', f)
+    was = some_hit(S0, Lp, x)
+    n0, n1, n2 = [S.len(it.t) for it in res.items]
+    return [
+        ('fresh_lists', z3.And(*[z3.And(it.t >= S0.alloc, it.t < S.alloc) for it in res.items]), 'aux'),
+        ('need_nothing', n0 == z3.If(z3.And(was, reuse), 1, 0), 'property'),
+        ('need_gradient_only', n1 == z3.If(z3.And(was, z3.Not(reuse)), 1, 0), 'property'),
+        ('need_gradient_and_value', n2 == z3.If(was, 0, 1), 'property'),
+    ]
+
+
+def sep_inv(L):
+    S0 = L.H0
+    f, x = L.args['self'].t, L.args['point'].t
+    Lp = S0.fld('Function', 'list_of_points', f)
+    reuse = S0.fld('Function', 'reuse_gradient', f)
+    was = some_hit(S0, Lp, x)
+    done = L.seen[Obj(f)]
+    ls = [L.var(i, i).t for i in range(3)]
+    return [('local_lists', z3.And(z3.Distinct(*ls), *[z3.And(l >= S0.alloc, l < L.H.alloc, L.H.cls(l) == tag('list')) for l in ls])),
+            ('need_nothing', L.H.len(ls[0]) == z3.If(z3.And(done, was, reuse), 1, 0)),
+            ('need_gradient_only', L.H.len(ls[1]) == z3.If(z3.And(done, was, z3.Not(reuse)), 1, 0)),
+            ('need_gradient_and_value', L.H.len(ls[2]) == z3.If(z3.And(done, z3.Not(was)), 1, 0))]
+
+
+contract(
+    FP + '_separate_leaf_functions_regarding_their_need_on_point', [('self', FT), ('point', PT)], returns=TTuple(TList(FW), TList(FW), TList(FW)),
+    requires=lambda S, a: oracle_req(S, a), ensures=sep_ens,
+    touches=lambda S, a: ['len', 'eltI', 'cls', 'dom', 'valR', 'f:t0', 'f:t1'],
+    local_types={0: TList(FW), 1: TList(FW), 2: TList(FW), 3: 'Function'},
+    loops={1: dict(inv=sep_inv, mods=lambda L: (lambda ls: {'len': lambda r: z3.Or(*[r == l for l in ls]), 'eltI': lambda r: z3.Or(*[r == l for l in ls])})([L.var(i, i).t for i in range(3)]))},
+    note='leaf functions only: the classification of the single term {self: 1}',
+)
+
+OR_TOUCH = lambda S, a: sorted(set(SP_TOUCH(S, a) + ['valI']))
+OR_SORTS = {'f:t0': IA_I, 'f:t1': IA_I, 'f:t2': IA_I}
+
+contract(
+    FP + 'oracle', [('self', FT), ('point', PT)], returns=TTuple(PT, ET),
+    requires=oracle_req, ensures=oracle_ens, modifies=oracle_mods, touches=OR_TOUCH, array_sorts=OR_SORTS,
+    mod_globals=['Point.counter', 'Expression.counter'],
+    # the two loops combine the samples of the TERMS of a sum: for a leaf function they are never entered (its only term needs what the function needs)
+    loops={n: dict(inv=lambda L: [('not_entered_by_a_leaf_function', z3.BoolVal(False))], mods=lambda L: {}) for n in (1, 2)},
+    local_types={'function': 'Function'},
+    note='leaf functions only (requires _is_leaf and the constructor\'s own decomposition {self: 1}): sums of functions are covered by the bounded call-sequence harness',
+)
+
+
+def value_ens(S0, S, a, res):
+    f, x, v = a['self'].t, a['point'].t, res.t
+    Lp, Ls = S0.fld('Function', 'list_of_points', f), S0.fld('Function', 'list_of_stationary_points', f)
+    was = some_hit(S0, Lp, x)
+    return [
+        ('one_value', at_first_hit(S0, Lp, x, lambda t: v == t2(S0, t)), 'property'),
+        ('evaluated.nothing_recorded', z3.Implies(was, z3.And(list_same(S0, S, Lp), list_same(S0, S, Ls))), 'property'),
+        ('first_evaluation.new_value', z3.Implies(z3.Not(was), fresh_leaf(S0, S, 'Expression', v)), 'property'),
+        ('first_evaluation.recorded', z3.Implies(z3.Not(was), z3.And(S.len(Lp) == S0.len(Lp) + 1, t0(S, S.elt(Lp, S0.len(Lp))) == x, t2(S, S.elt(Lp, S0.len(Lp))) == v)), 'property'),
+    ]
+
+
+def named_mods(cls):
+    def mods(S, a):
+        m = oracle_mods(S, a)
+        m['f:name'] = lambda r: z3.BoolVal(True)          # the name of the returned object (old or new): set when a name is given
+        m['f:name?none'] = lambda r: z3.BoolVal(True)
+        return m
+    return mods
+
+
+for _n in ('value', '__call__'):
+    contract(
+        FP + _n, [('self', FT), ('point', PT)] + ([('name', TOpt(TStr))] if _n == 'value' else []), returns=ET,
+        defaults={'name': lambda: sx.VNONE} if _n == 'value' else {},
+        requires=oracle_req, ensures=value_ens, modifies=named_mods('Expression'), touches=OR_TOUCH, array_sorts=OR_SORTS,
+        mod_globals=['Point.counter', 'Expression.counter'], note='leaf functions only',
+    )
+
+
+def grad_ens(S0, S, a, res):
+    f, x, g = a['self'].t, a['point'].t, res.t
+    Lp, Ls = S0.fld('Function', 'list_of_points', f), S0.fld('Function', 'list_of_stationary_points', f)
+    reuse = S0.fld('Function', 'reuse_gradient', f)
+    was = some_hit(S0, Lp, x)
+    tn = S.elt(Lp, S0.len(Lp))
+    return [
+        ('differentiable.same_gradient', z3.Implies(reuse, at_first_hit(S0, Lp, x, lambda t: g == t1(S0, t))), 'property'),
+        ('differentiable.nothing_recorded', z3.Implies(z3.And(reuse, was), z3.And(list_same(S0, S, Lp), list_same(S0, S, Ls))), 'property'),
+        ('otherwise.new_subgradient', z3.Implies(z3.Not(z3.And(reuse, was)), fresh_leaf(S0, S, 'Point', g)), 'property'),
+        ('otherwise.recorded', z3.Implies(z3.Not(z3.And(reuse, was)), z3.And(S.len(Lp) == S0.len(Lp) + 1, t0(S, tn) == x, t1(S, tn) == g)), 'property'),
+        ('otherwise.one_value', z3.Implies(z3.Not(z3.And(reuse, was)), at_first_hit(S0, Lp, x, lambda t: t2(S, tn) == t2(S0, t))), 'property'),
+    ]
+
+
+for _n in ('subgradient', 'gradient'):
+    contract(
+        FP + _n, [('self', FT), ('point', PT), ('name', TOpt(TStr))], returns=PT, defaults={'name': lambda: sx.VNONE},
+        requires=oracle_req, ensures=grad_ens, modifies=named_mods('Point'), touches=OR_TOUCH, array_sorts=OR_SORTS,
+        mod_globals=['Point.counter', 'Expression.counter'], note='leaf functions only',
+    )
+
+
 # ----------------------------------------------------------------------------------------- constructor and operators (weights)
 sx.FIELD_TYPES.update({'Function.tables_of_constraints': TDict(TInt), 'Function.name': TOpt(TStr)})
 FLISTS = ['list_of_stationary_points', 'list_of_points', 'list_of_constraints', 'list_of_psd', 'list_of_class_constraints', 'list_of_class_psd']
@@ -354,6 +522,10 @@ REG.by_key[FP + '_is_already_evaluated_on_point'].gen = gen_found
 REG.by_key[FP + 'add_point'].gen = gen_add_point
 REG.by_key[FP + 'stationary_point'].gen = lambda w, rng: dict(gen_leaf_fn(w, rng), return_gradient_and_function_value=False)
 REG.by_key[FP + 'fixed_point'].gen = gen_leaf_fn
+for _n in ('oracle', '__call__', '_separate_leaf_functions_regarding_their_need_on_point'):
+    REG.by_key[FP + _n].gen = gen_found
+for _n in ('value', 'subgradient', 'gradient'):
+    REG.by_key[FP + _n].gen = lambda w, rng: dict(gen_found(w, rng), name=rng.choice([None, None, 'named']))
 
 
 def gen_finit(w, rng):
